@@ -194,6 +194,11 @@ func (s *Swarm[T]) handleMessage(ctx context.Context, msg p2p.Message[T]) error 
 	if out != nil {
 		remoteKey := cs.Channel.RemoteKey()
 		srcID := s.config.fingerprinter(&remoteKey)
+		// The channel may have been created by a Tell of ours, in which case only the identity
+		// was checked when it was set up: the whitelist applies to everything that is delivered.
+		if !s.config.whitelist(Addr[T]{ID: srcID, Addr: msg.Src}) {
+			return nil
+		}
 		return s.hub.Deliver(ctx, p2p.Message[Addr[T]]{
 			Src:     Addr[T]{ID: srcID, Addr: msg.Src},
 			Dst:     Addr[T]{ID: s.localID, Addr: msg.Dst},
